@@ -282,29 +282,33 @@ def dropZeroSegs (l : List String) : List String :=
       if SpecParse.natOfDigits? x.toList == some 0 then go rest n else x :: rest
   (go l.reverse (l.length - 2)).reverse
 
+/-- `splitted[-1] = str(int(splitted[-1]) + 1)` -/
+def pvBump (l : List String) : Option (List String) :=
+  match l.reverse with
+  | [] => none
+  | last :: init => (SpecParse.natOfDigits? last.toList).map fun n => (toString (n + 1) :: init).reverse
+
+/-- the operator and operand segments of the normalised clause -/
+def pvTarget (op : MOp) (splitted : List String) : Option (MOp × List String) :=
+  match op with
+  | .eq | .ne => some (op, splitted ++ ["*"])
+  | .gt => (pvBump splitted).map fun l => (MOp.ge, l)
+  | .le => (pvBump splitted).map fun l => (MOp.lt, l)
+  | o => some (o, splitted)
+
 /-- `_normalize_python_version_specifier` (single.py:432-454, after the `fix:`s) -/
 def normalizePythonVersion (a : Atom) : Option ASpec :=
   if a.op == .in_ || a.op == .notIn then some a.spec
   else
-    let splitted := (splitDots a.value).map trimS
-    if splitted.contains "*" then some a.spec
+    let s0 := (splitDots a.value).map trimS
+    if s0.contains "*" then some a.spec
     else
     -- the `fix:`: python_version has two components, "3.8.0" compares like "3.8" (not for `~=`)
-    let splitted := if a.op != .compat then dropZeroSegs splitted else splitted
-    if splitted.length > 2 then some a.spec
+    let s1 := if a.op != .compat then dropZeroSegs s0 else s0
+    if s1.length > 2 then some a.spec
     else
-      let splitted := if splitted.length == 1 && a.op != .compat then splitted ++ ["0"] else splitted
-      let bump (l : List String) : Option (List String) :=
-        match l.reverse with
-        | [] => none
-        | last :: init => (SpecParse.natOfDigits? last.toList).map fun n => (toString (n + 1) :: init).reverse
-      let r : Option (MOp × List String) :=
-        match a.op with
-        | .eq | .ne => some (a.op, splitted ++ ["*"])
-        | .gt => (bump splitted).map fun l => (MOp.ge, l)
-        | .le => (bump splitted).map fun l => (MOp.lt, l)
-        | o => some (o, splitted)
-      r.bind fun (o, l) => (parseSpecOpt (o.str ++ ".".intercalate l)).map .ver
+      let s2 := if s1.length == 1 && a.op != .compat then s1 ++ ["0"] else s1
+      (pvTarget a.op s2).bind fun (o, l) => (parseSpecOpt (o.str ++ ".".intercalate l)).map .ver
 
 /-- `_merge_python_version_single_markers`; `isAnd`: merge_class is MultiMarker -/
 def mergePythonVersion (m1 m2 : Atom) (isAnd : Bool) : Option M :=
